@@ -398,6 +398,7 @@ pub fn run_batch(engine: &dyn Engine, cfg: &BatchCfg) -> BatchResult {
     }
   }
   unknown.sort_by(|a, b| a.0.cmp(&b.0));
+  let mut reported: BTreeSet<(String, String)> = BTreeSet::new();
   // Report at most 5 distinct unknown violation groups.
   for (idx, v, count) in unknown.iter().take(5) {
     let run_seed = mix(cfg.seed, *idx);
@@ -439,6 +440,9 @@ pub fn run_batch(engine: &dyn Engine, cfg: &BatchCfg) -> BatchResult {
         "KNOWN-FINDING: property={} invariant={} signature={} runs={} first_run={} {}",
         mv.property, mv.invariant, mv.signature, count, idx, desc
       ));
+      continue;
+    }
+    if !reported.insert((mv.invariant.clone(), mv.signature.clone())) {
       continue;
     }
     let value = replay_value(engine, cfg, *idx, &out, &mv, execs);
